@@ -54,6 +54,9 @@ def check(run, views, tier):
     for cfg, crates in views.items():
         run.cfg = cfg
         F = crates["ipp"]
+        # "an error exactly when the response's status is not successful" rests on status decoding and the success set (C16's clauses)
+        from .c16 import REG, check_status_semantics
+        check_status_semantics(run, F, load_json(REG)["enums"])
         b = F.body(FN)
         if b is None:
             run.anchor_lost("R-READY", FN)
